@@ -57,6 +57,10 @@ Theorem C01_depth : forall (ts : list token) (n : node),
   tokens_to_operator_tree ts = Ok n -> (depth n <= length ts + 1)%nat.
 Proof. exact build_depth. Qed.
 
+Theorem C01_depth_chars : forall (s : str) (n : node),
+  build_operator_tree s = Ok n -> (depth n <= length s + 1)%nat.
+Proof. exact parse_depth_chars. Qed.
+
 (* non-vacuity: the sites the property's text names, now errors or values *)
 Example C01_named_sites : forall O : std_oracle,
   (exists f, builtin_function O (s2l "shl") = Some f /\ f (VTuple [VInt 1; VInt 64]) = Ok (VInt 1)) /\
